@@ -171,7 +171,7 @@ class ValidationContext:
         self.id_list: Optional[list[Any]] = None
         self.elem: Optional[ElementType] = None
         self.attribute: Optional[str] = None
-        self.patterns: Optional['XsdPatternFacets'] = None
+        self.patterns: Optional[list['XsdPatternFacets']] = None
 
         self.validation_only = self.__class__ is ValidationContext
         self._arguments.validate(self)
